@@ -45,8 +45,28 @@ def _extra(c, io, build):
     return []
 
 
+def _t(v):
+    return {"new": {"task": [{"op": "yield", "x": "q%d" % v, "s": {"new": {"const": v}}}, {"op": "return", "e": {"var": "q%d" % v}}]}}
+
+
+# futures inside a dict that is nested in a yielded tuple/list are dependencies like all others (start order, and a
+# failing sibling must not be delivered before they are done); same for the reuse of one container object
+_NESTED_DICT = {
+    "roots": [[{"op": "try", "body": [
+        {"op": "yield", "x": "x1", "s": {"tuple": [_t(1), {"dict": [[0, _t(2)], [1, {"new": {"item": [0, 1, {"set": 3}]}}]]},
+                                                   {"new": {"error": 9}}, _t(4)]}}], "x": "e1", "handler": []},
+        {"op": "yield", "x": "x2", "s": {"list": [_t(5), {"dict": [[0, _t(6)]]}, _t(7)]}},
+        {"op": "return", "e": {"var": "x2"}}]],
+    "params": {"kinds": {}},
+}
+_EXTRA = [
+    (2, dict(name="nested-dict", p_ctx_fault=0, p_nonasync=0, budget=18, max_depth=4, p_dict=0.5, p_errfut=0.1, p_try=0.2)),
+    (1, dict(name="reuse", p_ctx_fault=0, p_nonasync=0, budget=16, max_depth=4, p_again=0.6, p_let=0.35, p_old=0.5)),
+]
+
 mach.install(globals(), "C03", ("EvStep", "EvDone"), ("C03:",), PROFILES, n_quick=300, n_thorough=25000,
-             nontrivial=_nontrivial, hang_clause="C03:termination", level="proof", extra_monitors=_extra)
+             nontrivial=_nontrivial, hang_clause="C03:termination", level="proof", extra_monitors=_extra,
+             corpus=[_NESTED_DICT], extra_gen=mach.extra_profiles(_EXTRA, 45, 3000))
 
 _gen0 = gen_cases
 _cmp0 = compare
